@@ -265,8 +265,6 @@ func evalAztec(c *core.Ctx, cs *core.Case) {
 			c.Fail("C10", cs, "explicit request %d for the automatically chosen size panicked: %s", req, w)
 		} else if e2 != nil || b2 == nil {
 			c.Fail("C10", cs, "automatic sizing fits the payload into compact=%v layers=%d (%d data words), but the explicit request %d for that very size is refused: %v", res.Compact, res.Layers, res.DataWords, req, e2)
-		} else if c.ID == "C03" && observe(b2, nil) != observe(bc, nil) {
-			c.Fail("C03", cs, "explicit request %d gives a different symbol than automatic sizing, which chose that size", req)
 		}
 		c.R.Transitions++
 	}
